@@ -75,7 +75,7 @@ theorem subintervals_first {o : FOps} (f : Fn) (ubErr : Rat) (bps : List Rat) (f
       · exact (throw_ne_ok h1).elim
       · split at h1
         · exact (throw_ne_ok h1).elim
-        · exact subLoop_first f ubErr _ _ fuel p fuel _ _ _ _ hf h1
+        · exact subLoop_first f ubErr _ _ _ p fuel _ _ _ _ hf h1
     split at h
     · exact ih _ _ _ hf' h
     · have := pure_ok h; subst this; exact hf'
